@@ -806,7 +806,13 @@ class Interp:
         return VOpaque(('static', canon(e['def'])))
 
     def ev_NamedConst(self, e, env):
-        return VOpaque(('const', canon(e['def'])))
+        d = canon(e['def'])
+        import re as _re
+        m = _re.match(r'core::num::<impl (\w+)>::(MAX|MIN)$', d)
+        if m and m.group(1) in INT_TYPES:
+            lo, hi = INT_TYPES[m.group(1)]
+            return VInt(Lin.const(hi if m.group(2) == 'MAX' else lo))
+        return VOpaque(('const', d))
 
     # ---------- patterns ----------
     def match(self, p, v, env):
